@@ -8,7 +8,9 @@
 EXTENDS Integers, FiniteSets, TLC
 
 Entries  == {"ovf", "vbox", "pvs", "hdd"}
-Features == {"internal", "nested", "extfile", "exthttp", "param", "extdtd"}
+\* "elemdecl": a DOCTYPE whose internal subset holds only ELEMENT / ATTLIST declarations; "doctype": a bare DOCTYPE -
+\* neither declares an entity
+Features == {"internal", "nested", "extfile", "exthttp", "param", "extdtd", "elemdecl", "doctype"}
 DeclaresEntity(fs) == fs \cap {"internal", "nested", "extfile", "exthttp", "param"} # {}
 
 VARIABLES entry, feats, verdict, fetched
